@@ -234,6 +234,75 @@ func Run(dir, tier string, seed int64) error {
 			id++
 		}
 	}
-	run.Res.Rule = "DEFLATE payloads inflating to 1 MiB .. 128 MiB (thorough: 1 GiB) around the 10 MiB cap (cap-1, cap, cap+1) through the exported InflateAndDecode (result compared with the Coq read-loop model) and, with the padding in a comment / text / attribute value / after the root element, nested in valid and invalid documents, through SSO (query, form, form without SAMLEncoding) and logout (query, form, form without SAMLEncoding); the same 64 MiB bombs wrapped as zlib and gzip streams; runtime.MemStats.TotalAlloc around each call must stay below 64 MiB + 16 x the request size (never a function of the inflated size) and oversized payloads must not be accepted. distinct = (entry point, inflated size, padding place, document validity)."
+	// (4) compression announced at the transport level: the body itself is a compressed stream and the request says so in
+	// Content-Encoding (or Transfer-Encoding); whatever the provider makes of that header, it must not inflate without a bound
+	{
+		body := func(container string, n int, soap bool) string {
+			var buf bytes.Buffer
+			var w io.WriteCloser
+			switch container {
+			case "zlib":
+				w, _ = zlib.NewWriterLevel(&buf, 9)
+			case "gzip":
+				w, _ = gzip.NewWriterLevel(&buf, 9)
+			default:
+				w, _ = flate.NewWriter(&buf, 9)
+			}
+			pre, post := "SAMLRequest=", "&RelayState=x"
+			if soap {
+				pre, post = `<soap:Envelope xmlns:soap="http://schemas.xmlsoap.org/soap/envelope/"><soap:Body><!--`, `--></soap:Body></soap:Envelope>`
+			}
+			w.Write([]byte(pre))
+			chunk := bytes.Repeat([]byte("A"), 1<<16)
+			for left := n; left > 0; left -= len(chunk) {
+				w.Write(chunk)
+			}
+			w.Write([]byte(post))
+			w.Close()
+			return buf.String()
+		}
+		type enc struct{ header, value, container string }
+		encs := []enc{{"Content-Encoding", "deflate", "raw"}, {"Content-Encoding", "deflate", "zlib"}, {"Content-Encoding", "gzip", "gzip"}, {"Content-Encoding", "x-gzip", "gzip"}, {"Content-Encoding", "DEFLATE", "raw"},
+			{"Transfer-Encoding", "gzip", "gzip"}}
+		paths := []string{"/SSO", "/SLO", "/attribute", "/login", "/metadata"}
+		tsizes := []int{64 << 20, 256 << 20}
+		bodies := map[string]string{}
+		for pi, path := range paths {
+			for ei, e := range encs {
+				n := tsizes[(pi+ei)%len(tsizes)]
+				soap := path == "/attribute"
+				key := fmt.Sprintf("%s/%d/%v", e.container, n, soap)
+				b, ok := bodies[key]
+				if !ok {
+					b = body(e.container, n, soap)
+					bodies[key] = b
+				}
+				ct := "application/x-www-form-urlencoded"
+				if soap {
+					ct = "text/xml"
+				}
+				spec := idp.ReqSpec{Method: http.MethodPost, Path: path, RawBody: &b, Header: map[string][]string{e.header: {e.value}, "Content-Type": {ct}}}
+				var rep *idp.Reply
+				env.Storage.ResetLog()
+				alloc := measure(func() { rep = env.Do(spec.HTTP()) })
+				run.Res.Evaluations++
+				accepted := env.Storage.CountOp("CreateAuthRequest") > 0 || rep.Status == "urn:oasis:names:tc:SAML:2.0:status:Success"
+				desc := map[string]interface{}{"endpoint": path, "header": e.header + ": " + e.value, "container": e.container, "inflated_bytes": n, "request_bytes": len(b), "accepted": accepted, "total_alloc": alloc, "reply": rep.Kind, "code": rep.Code}
+				run.Count("transport-encoding=" + e.header + ":" + e.value)
+				run.Distinct(fmt.Sprintf("transport/%s/%s/%s", path, e.value, e.container))
+				if alloc > allocBound(len(b)) {
+					run.Fail(coqgen.Failure{ID: id, Class: "inflate-allocation-unbounded", What: fmt.Sprintf("%s with %s: %s allocated %d MiB for a %d kB body inflating to %d MiB", path, e.header, e.value, alloc>>20, len(b)>>10, n>>20), Input: desc})
+				}
+				if accepted {
+					run.Fail(coqgen.Failure{ID: id, Class: "oversized-payload-accepted", What: fmt.Sprintf("%s accepted a compressed body inflating to %d MiB", path, n>>20), Input: desc})
+				}
+				if rep.Kind == "panic" {
+					run.Fail(coqgen.Failure{ID: id, Class: "panic:inflate", What: rep.Panic, Input: desc})
+				}
+				id++
+			}
+		}
+	}
+	run.Res.Rule = "DEFLATE payloads inflating to 1 MiB .. 128 MiB (thorough: 1 GiB) around the 10 MiB cap (cap-1, cap, cap+1) through the exported InflateAndDecode (result compared with the Coq read-loop model) and, with the padding in a comment / text / attribute value / after the root element, nested in valid and invalid documents, through SSO (query, form, form without SAMLEncoding) and logout (query, form, form without SAMLEncoding); the same 64 MiB bombs wrapped as zlib and gzip streams; request bodies that are themselves raw-deflate / zlib / gzip streams inflating to 64 and 256 MiB, announced by Content-Encoding (deflate, gzip, x-gzip, upper case) or Transfer-Encoding, at every route; runtime.MemStats.TotalAlloc around each call must stay below 64 MiB + 16 x the request size (never a function of the inflated size) and oversized payloads must not be accepted. distinct = (entry point, inflated size, padding place, document validity)."
 	return run.Finish()
 }
